@@ -54,6 +54,7 @@ import (
 	"github.com/provenance-io/provenance/x/exchange"
 	exchangekeeper "github.com/provenance-io/provenance/x/exchange/keeper"
 	markertypes "github.com/provenance-io/provenance/x/marker/types"
+	"github.com/provenance-io/provenance/x/quarantine"
 	metadatatypes "github.com/provenance-io/provenance/x/metadata/types"
 	msgfeestypes "github.com/provenance-io/provenance/x/msgfees/types"
 	triggerkeeper "github.com/provenance-io/provenance/x/trigger/keeper"
@@ -67,6 +68,13 @@ func init() {
 
 var genCustomModules = []string{"attribute", "exchange", "hold", "marker", "metadata", "msgfees", "name", "quarantine", "sanction", "trigger"}
 
+// genCompareModules: the custom modules plus auth ("acc" store) and bank, whose accounts and
+// balances the custom modules' genesis code creates and relies on (marker accounts, holds,
+// quarantined funds, scope value-owner coins).
+var genCompareModules = append(append([]string{}, genCustomModules...), "auth", "bank")
+
+var genStoreKeyName = map[string]string{"auth": "acc"}
+
 type genChain struct {
 	t      *testing.T
 	a      *app.App
@@ -78,20 +86,25 @@ type genChain struct {
 	hashes []string
 	resps  []string // hash of each block's marshalled ResponseFinalizeBlock (tx results, events, app hash)
 	pendingSeq map[int]uint64
+	label      string
 }
 
 const genChainID = "pio-verif-gen-1"
 
 // genNewApp creates an app on db; when genesis != nil the chain is initialised from it.
 func genNewApp(t *testing.T, db dbm.DB, home string, genesis []byte) *app.App {
+	return genNewAppAt(t, db, home, genesis, 1, time.Unix(1_700_000_000, 0).UTC())
+}
+
+func genNewAppAt(t *testing.T, db dbm.DB, home string, genesis []byte, initialHeight int64, genesisTime time.Time) *app.App {
 	verifhooks.EnsureConfig()
 	opts := simtestutil.AppOptionsMap{flags.FlagHome: home, server.FlagInvCheckPeriod: uint(0)}
 	a := app.New(log.NewNopLogger(), db, nil, true, opts, baseapp.SetChainID(genChainID))
 	if genesis != nil {
 		if _, err := a.InitChain(&abci.RequestInitChain{
 			Validators: []abci.ValidatorUpdate{}, ConsensusParams: app.DefaultConsensusParams,
-			AppStateBytes: genesis, ChainId: genChainID, InitialHeight: 1,
-			Time: time.Unix(1_700_000_000, 0).UTC(),
+			AppStateBytes: genesis, ChainId: genChainID, InitialHeight: initialHeight,
+			Time: genesisTime,
 		}); err != nil {
 			t.Fatalf("InitChain: %v", err)
 		}
@@ -144,9 +157,30 @@ func (c *genChain) beginBlock(txs ...genTx) {
 			raw = append(raw, bz)
 		}
 	}
+	defer func() {
+		if r := recover(); r != nil {
+			uctx := c.a.BaseApp.NewUncachedContext(false, cmtproto.Header{ChainID: genChainID, Height: c.height})
+			var ids []string
+			_ = c.a.TriggerKeeper.IterateTriggers(uctx, func(tr triggertypes.Trigger) (bool, error) { ids = append(ids, fmt.Sprint(tr.Id)); return false, nil })
+			var q []string
+			q = append(q, fmt.Sprintf("start=%d len=%d", c.a.TriggerKeeper.VerifQueueStartIndex(uctx), c.a.TriggerKeeper.VerifQueueLength(uctx)))
+			var gl []string
+			_ = c.a.TriggerKeeper.IterateGasLimits(uctx, func(g triggertypes.GasLimit) (bool, error) { gl = append(gl, fmt.Sprintf("%d=%d", g.TriggerId, g.Amount)); return false, nil })
+			fmt.Printf("BLOCKPANIC chain=%s height=%d registered=%v queue=%v gaslimits=%v: %v\n", c.label, c.height, ids, q, gl, r)
+			panic(r)
+		}
+	}()
 	resp, err := c.a.FinalizeBlock(&abci.RequestFinalizeBlock{Height: c.height, Time: c.now, Hash: c.a.LastCommitID().Hash, Txs: raw})
 	if err != nil {
 		c.t.Fatalf("FinalizeBlock %d: %v", c.height, err)
+	}
+	if testing.Verbose() && c.label == "run1" {
+		uctx := c.a.BaseApp.NewUncachedContext(false, cmtproto.Header{ChainID: genChainID, Height: c.height})
+		var gl []string
+		_ = c.a.TriggerKeeper.IterateGasLimits(uctx, func(g triggertypes.GasLimit) (bool, error) { gl = append(gl, fmt.Sprintf("%d=%d", g.TriggerId, g.Amount)); return false, nil })
+		var ids []string
+		_ = c.a.TriggerKeeper.IterateTriggers(uctx, func(tr triggertypes.Trigger) (bool, error) { ids = append(ids, fmt.Sprint(tr.Id)); return false, nil })
+		fmt.Printf("TRIG after finalize h=%d registered=%v qstart=%d qlen=%d gas=%v\n", c.height, ids, c.a.TriggerKeeper.VerifQueueStartIndex(uctx), c.a.TriggerKeeper.VerifQueueLength(uctx), gl)
 	}
 	bz, _ := resp.Marshal()
 	h := sha256.Sum256(bz)
@@ -198,7 +232,7 @@ func genPlan(r *RNG, nBlocks int, addrs []sdk.AccAddress) ([][]genOp, [][]genTx,
 		var ops []genOp
 		nops := 2 + r.Intn(6)
 		for i := 0; i < nops; i++ {
-			switch k := r.Intn(15); k {
+			switch k := r.Intn(17); k {
 			case 0: // name
 				owner := pick()
 				nm := fmt.Sprintf("n%d.verif", r.Intn(1000))
@@ -293,6 +327,7 @@ func genPlan(r *RNG, nBlocks int, addrs []sdk.AccAddress) ([][]genOp, [][]genTx,
 						AcceptingOrders: true, AllowUserSettlement: true, AcceptingCommitments: true,
 						FeeCreateAskFlat:          []sdk.Coin{sdk.NewInt64Coin("nhash", 10)},
 						FeeSellerSettlementRatios: []exchange.FeeRatio{{Price: sdk.NewInt64Coin("usdx", 100), Fee: sdk.NewInt64Coin("usdx", 1)}},
+						FeeBuyerSettlementRatios:  []exchange.FeeRatio{{Price: sdk.NewInt64Coin("usdx", 100), Fee: sdk.NewInt64Coin("nhash", 1)}},
 						AccessGrants:              []exchange.AccessGrant{{Address: admin.String(), Permissions: exchange.AllPermissions()}},
 					})
 					return err
@@ -376,7 +411,10 @@ func genPlan(r *RNG, nBlocks int, addrs []sdk.AccAddress) ([][]genOp, [][]genTx,
 					if err != nil {
 						return err
 					}
-					_, err = triggerkeeper.NewMsgServerImpl(c.a.TriggerKeeper).CreateTrigger(ctx, msg)
+					resp, err := triggerkeeper.NewMsgServerImpl(c.a.TriggerKeeper).CreateTrigger(ctx, msg)
+					if testing.Verbose() && c.label == "run1" {
+						fmt.Printf("TRIG create at h=%d ev=%d resp=%v err=%v\n", c.height, uint64(c.height)+hOff, resp, err)
+					}
 					return err
 				})
 			case 11: // msg fee
@@ -415,6 +453,75 @@ func genPlan(r *RNG, nBlocks int, addrs []sdk.AccAddress) ([][]genOp, [][]genTx,
 							ValueOwnerAddress: vo.String()})
 					})
 				}
+			case 15: // marker cancel (+ delete): a destroyed marker lives until the next BeginBlocker removes it
+				if len(markers) == 0 {
+					continue
+				}
+				denom := markers[r.Intn(len(markers))]
+				alsoDelete := r.Chance(70)
+				desc = append(desc, "markerdestroy:"+denom)
+				ops = append(ops, func(c *genChain, ctx sdk.Context) error {
+					m, err := c.a.MarkerKeeper.GetMarkerByDenom(ctx, denom)
+					if err != nil {
+						return err
+					}
+					acl := m.GetAccessList()
+					if len(acl) == 0 {
+						return fmt.Errorf("no admin")
+					}
+					admin, _ := sdk.AccAddressFromBech32(acl[0].Address)
+					// all coins must be back in the marker account: burn is not needed, return what the admin holds
+					bal := c.a.BankKeeper.GetBalance(ctx, admin, denom)
+					if bal.IsPositive() {
+						if err := c.a.BankKeeper.SendCoins(markertypes.WithBypass(ctx), admin, m.GetAddress(), sdk.NewCoins(bal)); err != nil {
+							return err
+						}
+					}
+					if err := c.a.MarkerKeeper.CancelMarker(ctx, admin, denom); err != nil {
+						return err
+					}
+					if alsoDelete {
+						return c.a.MarkerKeeper.DeleteMarker(ctx, admin, denom)
+					}
+					return nil
+				})
+			case 16: // (one in three) quarantine: a multi-sender record, partially accepted, next to a single-sender one
+				to, f1, f2 := pick(), pick(), pick()
+				amt := int64(1 + r.Intn(20))
+				if !r.Chance(34) {
+					continue
+				}
+				desc = append(desc, "quarantine-multi")
+				ops = append(ops, func(c *genChain, ctx sdk.Context) error {
+					if f1.Equals(f2) || to.Equals(f1) || to.Equals(f2) {
+						return fmt.Errorf("need three distinct accounts")
+					}
+					if testing.Verbose() {
+						fmt.Println("QMULTI start")
+					}
+					if err := c.a.QuarantineKeeper.SetOptIn(ctx, to); err != nil {
+						return err
+					}
+					coins := sdk.NewCoins(sdk.NewInt64Coin("usdx", amt))
+					holder := c.a.QuarantineKeeper.GetFundsHolder()
+					// the funds of a two-sender record (as a multi-input transfer would leave them)
+					if err := c.a.BankKeeper.SendCoins(quarantine.WithBypass(ctx), f1, holder, coins); err != nil {
+						return err
+					}
+					if err := c.a.QuarantineKeeper.AddQuarantinedCoins(ctx, coins, to, f1, f2); err != nil {
+						return err
+					}
+					// a plain quarantined send from f2 alone
+					if err := c.a.BankKeeper.SendCoins(ctx, f2, to, coins); err != nil {
+						return err
+					}
+					// accept f1 only: the two-sender record becomes partially accepted
+					_, err := c.a.QuarantineKeeper.AcceptQuarantinedFunds(ctx, to, f1)
+					if testing.Verbose() {
+						fmt.Println("QMULTI done err=", err)
+					}
+					return err
+				})
 			case 14: // plain send
 				from, to := pick(), pick()
 				amt := int64(1 + r.Intn(1000))
@@ -477,12 +584,20 @@ func genPlan(r *RNG, nBlocks int, addrs []sdk.AccAddress) ([][]genOp, [][]genTx,
 	return plan, txplan, desc
 }
 
-// runBlock applies one block's ops (each atomically) and commits. Returns "ok"/"err" per op.
+// runBlock applies one block's keeper-level ops (each atomically) directly to the root multistore
+// (uncached context: FinalizeBlock's own cache layer is discarded and rebuilt per block, so
+// writes made through it after FinalizeBlock would be lost), then delivers the block's signed
+// transactions through FinalizeBlock (real begin/end blockers) and commits.
 func (c *genChain) runBlock(ops []genOp, txs []genTx) string {
-	c.beginBlock(txs...)
 	var res []string
+	next := c.height + 1
+	nextTime := c.now.Add(7 * time.Second)
+	uctx := c.a.BaseApp.NewUncachedContext(false, cmtproto.Header{ChainID: genChainID, Height: next, Time: nextTime})
 	for _, op := range ops {
-		err, pan := Try(c.ctx(), func(ctx sdk.Context) error { return op(c, ctx) })
+		save := c.height
+		c.height = next
+		err, pan := Try(uctx, func(ctx sdk.Context) error { return op(c, ctx) })
+		c.height = save
 		switch {
 		case pan != "":
 			res = append(res, "p")
@@ -492,6 +607,7 @@ func (c *genChain) runBlock(ops []genOp, txs []genTx) string {
 			res = append(res, "o")
 		}
 	}
+	c.beginBlock(txs...)
 	c.commit()
 	return strings.Join(res, "")
 }
@@ -557,6 +673,161 @@ func (c *genChain) signTx(tx genTx) ([]byte, error) {
 	return cfg.TxEncoder()(b.GetTx())
 }
 
+// genRawStoreExempt: modules whose raw store legitimately differs after export/import
+// (representation only); they are compared through their exported genesis instead.
+var genRawStoreExempt = map[string]bool{}
+
+// genRawStores hashes every key/value of each custom module's KV store.
+func genRawStores(c *genChain) map[string]string {
+	res := map[string]string{}
+	ctx := c.a.BaseApp.NewContextLegacy(true, cmtproto.Header{ChainID: genChainID, Height: c.a.LastBlockHeight()})
+	for _, m := range genCompareModules {
+		kn := m
+		if n, ok := genStoreKeyName[m]; ok {
+			kn = n
+		}
+		key := c.a.GetKey(kn)
+		if key == nil {
+			res[m] = "nokey"
+			continue
+		}
+		h := sha256.New()
+		n := 0
+		it := ctx.KVStore(key).Iterator(nil, nil)
+		for ; it.Valid(); it.Next() {
+			if m == "attribute" && len(it.Key()) > 0 && it.Key()[0] == 0x03 {
+				// name->address lookup COUNTERS are derived data: SetAttribute increments the counter
+				// also when it overwrites an identical (account, name, value) attribute (pinned by the
+				// repository's own TestSetAttribute), InitGenesis recounts from the records. The
+				// records, and therefore who holds which attribute, are compared through the export.
+				continue
+			}
+			h.Write(it.Key())
+			h.Write([]byte{0xff})
+			h.Write(it.Value())
+			h.Write([]byte{0xfe})
+			n++
+		}
+		it.Close()
+		res[m] = fmt.Sprintf("%d:%x", n, h.Sum(nil)[:8])
+	}
+	return res
+}
+
+// genQuarantineDiff classifies a difference between the quarantine genesis of the original and
+// of the re-initialised chain:
+//   ""                           identical
+//   quarantine-funds-lost        the total quarantined for some receiver differs (coins unclaimable)
+//   quarantine-merged-records    only the representation differs: entries that share receiver and
+//                                unaccepted senders (the export drops accepted senders) came back as
+//                                one entry with the coins added
+//   quarantine                   anything else
+func genQuarantineDiff(a, b string) string {
+	if a == b {
+		return ""
+	}
+	type qf struct {
+		To       string     `json:"to_address"`
+		Unacc    []string   `json:"unaccepted_from_addresses"`
+		Coins    []sdk.Coin `json:"coins"`
+		Declined bool       `json:"declined"`
+	}
+	type gs struct {
+		Addrs []string          `json:"quarantined_addresses"`
+		Auto  []json.RawMessage `json:"auto_responses"`
+		Funds []qf              `json:"quarantined_funds"`
+	}
+	var ga, gb gs
+	if json.Unmarshal([]byte(a), &ga) != nil || json.Unmarshal([]byte(b), &gb) != nil {
+		return "quarantine"
+	}
+	canonRest := func(g gs) string {
+		ad := append([]string{}, g.Addrs...)
+		sort.Strings(ad)
+		var au []string
+		for _, x := range g.Auto {
+			au = append(au, string(x))
+		}
+		sort.Strings(au)
+		return strings.Join(ad, ",") + "|" + strings.Join(au, ",")
+	}
+	if canonRest(ga) != canonRest(gb) {
+		return "quarantine"
+	}
+	totals := func(g gs) string {
+		m := map[string]sdk.Coins{}
+		for _, f := range g.Funds {
+			m[f.To] = m[f.To].Add(f.Coins...)
+		}
+		var ks []string
+		for k, v := range m {
+			ks = append(ks, k+"="+v.String())
+		}
+		sort.Strings(ks)
+		return strings.Join(ks, ";")
+	}
+	if totals(ga) != totals(gb) {
+		return "quarantine-funds-lost"
+	}
+	merged := func(g gs) string {
+		type ent struct {
+			coins    sdk.Coins
+			declined bool
+		}
+		m := map[string]*ent{}
+		for _, f := range g.Funds {
+			u := append([]string{}, f.Unacc...)
+			sort.Strings(u)
+			k := f.To + "<" + strings.Join(u, "+")
+			if m[k] == nil {
+				m[k] = &ent{}
+			}
+			m[k].coins = m[k].coins.Add(f.Coins...)
+			m[k].declined = m[k].declined || f.Declined
+		}
+		var ks []string
+		for k, v := range m {
+			ks = append(ks, fmt.Sprintf("%s=%s/%v", k, v.coins, v.declined))
+		}
+		sort.Strings(ks)
+		return strings.Join(ks, ";")
+	}
+	if merged(ga) == merged(gb) {
+		return "quarantine-merged-records"
+	}
+	return "quarantine"
+}
+
+func genPrintStoreDiff(a, b *genChain, m string) {
+	dump := func(c *genChain) map[string]string {
+		res := map[string]string{}
+		ctx := c.a.BaseApp.NewContextLegacy(true, cmtproto.Header{ChainID: genChainID, Height: c.a.LastBlockHeight()})
+		kn := m
+		if n, ok := genStoreKeyName[m]; ok {
+			kn = n
+		}
+		it := ctx.KVStore(c.a.GetKey(kn)).Iterator(nil, nil)
+		for ; it.Valid(); it.Next() {
+			res[hex.EncodeToString(it.Key())] = hex.EncodeToString(it.Value())
+		}
+		it.Close()
+		return res
+	}
+	da, db := dump(a), dump(b)
+	for k, v := range da {
+		if db[k] != v {
+			fmt.Printf("STOREDIFF %s key=%s orig=%s imported=%s\n", m, k, v, db[k])
+		}
+	}
+	for k, v := range db {
+		if _, ok := da[k]; !ok {
+			fmt.Printf("STOREDIFF %s key=%s orig=<none> imported=%s\n", m, k, v)
+		}
+	}
+}
+
+func raw1x(c *genChain, m string) string { return genRawStores(c)[m] }
+
 func genExportCustom(t *testing.T, a *app.App) (map[string]string, []byte, error) {
 	exp, err := a.ExportAppStateAndValidators(false, nil, nil)
 	if err != nil {
@@ -567,7 +838,7 @@ func genExportCustom(t *testing.T, a *app.App) (map[string]string, []byte, error
 		return nil, nil, err
 	}
 	res := map[string]string{}
-	for _, m := range genCustomModules {
+	for _, m := range genCompareModules {
 		var v any
 		if raw, ok := gs[m]; ok {
 			_ = json.Unmarshal(raw, &v)
@@ -589,11 +860,19 @@ func genCase(t *testing.T, seed uint64, nBlocks int, out *Out) (string, string) 
 	}
 	start := time.Unix(1_700_000_000, 0).UTC()
 	newChain := func(db dbm.DB, home string) *genChain {
-		return &genChain{t: t, a: genNewApp(t, db, home, genesis), db: db, now: start, addrs: addrs}
+		c := &genChain{t: t, a: genNewApp(t, db, home, genesis), db: db, now: start, addrs: addrs}
+		// an empty first block flushes the genesis state (it lives in InitChain's cache layer until
+		// the first FinalizeBlock; root-store writes made before that would be overwritten)
+		c.beginBlock()
+		c.commit()
+		c.hashes, c.resps = nil, nil
+		return c
 	}
 	// run 1 and run 2: in-memory
 	c1 := newChain(dbm.NewMemDB(), t.TempDir())
+	c1.label = "run1"
 	c2 := newChain(dbm.NewMemDB(), t.TempDir())
+	c2.label = "run2"
 	var res1, res2 []string
 	for i, ops := range plan {
 		res1 = append(res1, c1.runBlock(ops, txplan[i]))
@@ -641,6 +920,7 @@ func genCase(t *testing.T, seed uint64, nBlocks int, out *Out) (string, string) 
 	}
 	home3 := t.TempDir()
 	c3 := newChain(db3, home3)
+	c3.label = "restart"
 	stopAt := 1 + r.Intn(len(plan))
 	restart := "same"
 	for i, ops := range plan {
@@ -712,16 +992,40 @@ func genCase(t *testing.T, seed uint64, nBlocks int, out *Out) (string, string) 
 						}
 					}
 				}()
-				c4 := &genChain{t: t, a: genNewApp(t, dbm.NewMemDB(), t.TempDir(), appState), now: c1.now, height: 0}
+				// the re-initialised chain starts at the height after the export, as a real restart from
+				// an exported genesis does; both chains then run the same next (empty) block, so that
+				// begin/end blocker effects (queued triggers, expiring attributes, destroyed markers)
+				// are the same on both sides of the comparison.
+				c4 := &genChain{t: t, a: genNewAppAt(t, dbm.NewMemDB(), t.TempDir(), appState, c1.height+1, c1.now), now: c1.now, height: c1.height, label: "imported"}
 				c4.beginBlock()
 				c4.commit()
+				c1.beginBlock()
+				c1.commit()
+				exp1, _, err = genExportCustom(t, c1.a)
+				if err != nil {
+					round = "err:export-next"
+					return
+				}
 				exp2, _, err := genExportCustom(t, c4.a)
 				if err != nil {
 					round = "err:reexport"
 					return
 				}
 				var bad []string
-				for _, m := range genCustomModules {
+				raw1, raw4 := genRawStores(c1), genRawStores(c4)
+				for _, m := range genCompareModules {
+					if m == "quarantine" {
+						if cls := genQuarantineDiff(exp1[m], exp2[m]); cls != "" {
+							bad = append(bad, cls)
+						}
+						continue
+					}
+					if raw1[m] != raw4[m] && !genRawStoreExempt[m] {
+						bad = append(bad, m+"-store")
+						if testing.Verbose() {
+							genPrintStoreDiff(c1, c4, m)
+						}
+					}
 					if exp1[m] != exp2[m] {
 						bad = append(bad, m)
 						if testing.Verbose() {
